@@ -11,6 +11,7 @@ import PcVerif.Lemmas.SamiLemmas
 import PcVerif.Lemmas.SrtDocLemmas
 import PcVerif.Lemmas.VttDocLemmas
 import PcVerif.Lemmas.MicroDvdDocLemmas
+import PcVerif.Lemmas.DfxpOffsetLemmas
 import Mathlib.Tactic.Ring
 import Mathlib.Tactic.NormNum
 namespace PcVerif.Props.C01
@@ -184,6 +185,44 @@ theorem sami_tail_pinned : Generated.samiTailMs = 4000 := by decide
     language with a different time; the cues of the last sync last four seconds -/
 theorem sami_backfill (ps : List (Nat × Bool)) (hs : Sami.SortedFrom 0 ps) :
     Sami.translateLang ps = Sami.specLang ps := Sami.sami_backfill ps hs
+
+/-! ### DFXP offset times and the three attributes -/
+
+/-- **C01 (DFXP offset time).** `<count><metric>` with a whole or decimal count of ANY width and metric h, m, s, ms or f
+    denotes count × (3600 s, 60 s, 1 s, 1 ms, 1/30 s), evaluated exactly and truncated to whole microseconds — `500ms`
+    is milliseconds, not minutes -/
+theorem dfxp_offset_whole (ip : Str) (m : Dfxp.Metric) (hip : Digits ip) (hm : m ≠ .t) :
+    Dfxp.timeExpr (ip ++ m.text) = .ok (Dfxp.offsetValue ip [] m).floor := Dfxp.timeExpr_offset_int ip m hip hm
+
+theorem dfxp_offset_decimal (ip fp : Str) (m : Dfxp.Metric) (hip : Digits ip) (hfp : Digits fp) (hm : m ≠ .t) :
+    Dfxp.timeExpr (ip ++ '.' :: (fp ++ m.text)) = .ok (Dfxp.offsetValue ip fp m).floor :=
+  Dfxp.timeExpr_offset_frac ip fp m hip hfp hm
+
+/-- the factors are the ones the property names -/
+theorem dfxp_offset_value (ip fp : Str) :
+    Dfxp.offsetValue ip fp .h = Dfxp.decimalValue ip fp * (3600000000 : Nat) ∧
+    Dfxp.offsetValue ip fp .m = Dfxp.decimalValue ip fp * (60000000 : Nat) ∧
+    Dfxp.offsetValue ip fp .s = Dfxp.decimalValue ip fp * (1000000 : Nat) ∧
+    Dfxp.offsetValue ip fp .ms = Dfxp.decimalValue ip fp * (1000 : Nat) ∧
+    Dfxp.offsetValue ip fp .f = Dfxp.decimalValue ip fp / (30 : Nat) * (1000000 : Nat) := by
+  obtain ⟨p1, p2, p3, p4, p5, _⟩ := dfxp_constants_pinned
+  refine ⟨?_, ?_, ?_, ?_, ?_⟩ <;>
+    simp only [Dfxp.offsetValue, Dfxp.usH, Dfxp.usM, Dfxp.usS, Dfxp.usMs, Dfxp.frameBase, p1, p2, p3, p4, p5]
+
+/-- **C01 (DFXP begin / end / dur).** a cue with `begin` and `end` starts and ends at the two instants; with `begin` and
+    `dur` it ends `dur` after its begin; without `begin` it is refused -/
+theorem dfxp_begin_end (b e : Str) (x y : Int) (hb : b ≠ []) (he : e ≠ []) (durA : Option Str)
+    (pb : Dfxp.timeExpr b = .ok x) (pe : Dfxp.timeExpr e = .ok y) : Dfxp.times (some b) (some e) durA = .ok (x, y) :=
+  Dfxp.times_begin_end b e x y hb he durA pb pe
+
+theorem dfxp_begin_dur (b d : Str) (x y : Int) (hb : b ≠ []) (hd : d ≠ [])
+    (pb : Dfxp.timeExpr b = .ok x) (pd : Dfxp.timeExpr d = .ok y) : Dfxp.times (some b) none (some d) = .ok (x, x + y) :=
+  Dfxp.times_begin_dur b d x y hb hd pb pd
+
+/-- the hypotheses are satisfiable (`500ms`, `1.5s`) -/
+example : Digits "500".toList ∧ Digits "1".toList ∧ Digits "5".toList ∧ Dfxp.Metric.ms ≠ .t ∧
+    "500ms".toList = "500".toList ++ Dfxp.Metric.ms.text ∧ "1.5s".toList = "1".toList ++ '.' :: ("5".toList ++ Dfxp.Metric.s.text) :=
+  ⟨⟨by decide, by decide⟩, ⟨by decide, by decide⟩, ⟨by decide, by decide⟩, by decide, by decide, by decide⟩
 
 /-! ### SRT, document level -/
 
